@@ -159,6 +159,7 @@ func child(b run.Batch, r *ev.Result) {
 	case "prodwt":
 		// production build (no test tag) next to a fake WattTime service: lib/prodwt
 		prodwt.RunEpisodes(r, b, b.Seed, strings.Split(b.P("scenarios"), ","))
+		prodwt.RunLife(r, b, b.Seed+500, "C13", 2) // lib/prodwt/life.go: the C13 slice of a production server's short life (WattTime up / down)
 	default:
 		r.Inconc("unknown batch kind " + b.Kind)
 	}
